@@ -52,7 +52,7 @@ def check(src, rep):
     rep.not_decided = NOT_DECIDED
     rep.assumptions = ["cwcwidth.wcwidth / wcswidth agree with the `wcwidth` package on the catalogue's alphabet (narrow ASCII, U+FF25 wide, U+0301 combining)"]
     rep.trusted_base = ["CPython ast", "sa/consteval.py", "sa/absint.py", "sa/objinterp.py", "the wcwidth package"]
-    it = new_interp(src)
+    it = new_interp(src, check_views=True)
     f = src.func("formatstring", "FmtStr.width_aware_slice")
     maxlen = 5 if rep.tier == "thorough" else 4
     jobs = []
